@@ -254,11 +254,12 @@ def force_inverse_composition(rng, d: Definition):
     s = rng.choice(d.state)
     inv, fwd = rng.choice(pairs)
     arg = s + rng.choice(d.state) * Rational(1, 2) + d.dt
-    d.state_model[s] = d.state_model[s] + inv(fwd(arg))
+    # once on its own, once multiplied by another symbol (so that a DERIVATIVE still contains the composition)
+    d.state_model[s] = d.state_model[s] + inv(fwd(arg)) + rng.choice(d.state) * inv(fwd(s + 1))
     for rd in d.sensors.values():
         r = rng.choice(sorted(rd))
         inv, fwd = rng.choice(pairs)
-        rd[r] = rd[r] + inv(fwd(rng.choice(d.state) + 1))
+        rd[r] = rd[r] + inv(fwd(rng.choice(d.state) + 1)) * (1 + rng.choice(d.state))
         break
     d.transcend = True
     return d
